@@ -5,7 +5,7 @@
 From Coq Require Import String List Bool Arith ZArith Permutation.
 From PV Require Import Model.ForceField Model.States Proofs.States.
 From PV Require Import Model.Pipeline Proofs.Pipeline Generated.Stages Proofs.StagesC12 Proofs.PipelineC12.
-From PV Require Generated.States Generated.FF_AMBER Generated.StatesFF_AMBER Generated.FF_CHARMM Generated.StatesFF_CHARMM Generated.FF_PARSE Generated.StatesFF_PARSE Generated.FF_PEOEPB Generated.StatesFF_PEOEPB Generated.FF_SWANSON Generated.StatesFF_SWANSON Generated.FF_TYL06 Generated.StatesFF_TYL06.
+From PV Require Generated.GuardC12 Generated.States Generated.FF_AMBER Generated.StatesFF_AMBER Generated.FF_CHARMM Generated.StatesFF_CHARMM Generated.FF_PARSE Generated.StatesFF_PARSE Generated.FF_PEOEPB Generated.StatesFF_PEOEPB Generated.FF_SWANSON Generated.StatesFF_SWANSON Generated.FF_TYL06 Generated.StatesFF_TYL06.
 Import ListNotations.
 Local Open Scope string_scope.
 
@@ -85,6 +85,11 @@ Example C12_guard_order_nonvacuous :
      mk_sdesc "print_pqr" "main_driver" Output [] [] [("main.print_pqr", ["output_pqr"])] true false] = false
   /\ guard_is_last_compute [mk_sdesc "print_pqr" "main_driver" Output [] [] [] true false] = false.
 Proof. exact guard_order_nonvacuous. Qed.
+
+(* the guard's tolerance is the fixed model constant 1e-3 (TOL/SCALE), not a function of the structure *)
+Theorem C12_generated_guard_tolerance :
+  guard_tolerance_ok = true /\ Generated.GuardC12.charge_error_e8 = TOL /\ (TOL * 1000 = SCALE)%Z.
+Proof. exact generated_guard_tolerance. Qed.
 
 (* meaning of guard_is_last_compute, for ALL stage lists: every stage behind the (last) guard
    stage is not a Compute stage *)
@@ -273,3 +278,4 @@ Print Assumptions C12_guard_stage_in_table.
 Print Assumptions C12_success_nonvacuous.
 Print Assumptions C12_guard_is_last_compute_spec.
 Print Assumptions C12_guard_order_nonvacuous.
+Print Assumptions C12_generated_guard_tolerance.
